@@ -7,6 +7,9 @@ pub mod cluster;
 pub mod mailbox;
 pub mod process_group;
 pub mod supervisor;
+#[cfg(compio_verif)]
+#[allow(missing_docs)]
+pub mod verif;
 
 #[doc(inline)]
 pub use actor::{Actor, ActorExit, ActorHandle, Handler, Message};
